@@ -58,8 +58,39 @@ type api struct {
 	maxTimeout   time.Duration // largest timeout configured for the protocol(s) involved
 	maxLen       int           // cap on the script length (0 = tier default)
 	lite         bool          // fewer scripts get the perturbed schedules (see reduced)
+	extra        []extraScript // scripts run in addition to the enumerated ones (both tiers)
 	bound        int           // deviation bound for scripts of length <= boundLen (0 = tier default)
 	boundLen     int
+}
+
+// extraScript names a script by its letter labels; split != 0 re-segments its first two
+// adjacent messages (see scenarioSplit).
+type extraScript struct {
+	labels []string
+	split  int
+}
+
+func (sp *api) pick(labels []string) []letter {
+	var out []letter
+	for _, lab := range labels {
+		found := false
+		for _, l := range sp.letters {
+			if l.label == lab {
+				out = append(out, l)
+				found = true
+			}
+		}
+		if !found {
+			panic("c15: no letter " + lab + " in " + sp.id())
+		}
+	}
+	return out
+}
+
+// resegmented lists a script with its first message pair cut after 1 byte and in the middle
+// of the second message.
+func resegmented(labels ...string) []extraScript {
+	return []extraScript{{labels: labels, split: 1}, {labels: labels, split: -1}}
 }
 
 func (sp *api) id() string {
@@ -173,6 +204,8 @@ func csAPIs(ntn bool) []*api {
 
 	sync := base("Sync")
 	sync.calls = []call{{name: "Sync", run: func(c *conn, h *hooks) string { return res(syncCall(c, h)) }}}
+	// a server that answers the pipelined RequestNext in the same TCP segment as the intersection
+	sync.extra = append(resegmented("IntersectFound", "RollForward"), resegmented("IntersectFound", "RollBackward")...)
 
 	tip := base("GetCurrentTip")
 	tip.calls = []call{{name: "GetCurrentTip", run: func(c *conn, h *hooks) string {
@@ -255,10 +288,16 @@ func bfAPIs() []*api {
 		}
 		return res(err)
 	}}}
+	// the conforming single-block batch (the served block is a valid Shelley block whose hash is
+	// not the requested one), whole and with the block cut across two segments
+	gb.extra = append([]extraScript{{labels: []string{"StartBatch", "Block", "BatchDone"}}},
+		resegmented("StartBatch", "Block", "BatchDone")...)
 	gr := base("GetBlockRange")
 	gr.calls = []call{{name: "GetBlockRange", run: func(c *conn, h *hooks) string {
 		return res(c.BlockFetch().Client.GetBlockRange(pointLo, pointHi))
 	}}}
+	gr.extra = append([]extraScript{{labels: []string{"StartBatch", "Block", "BatchDone"}}},
+		resegmented("StartBatch", "Block", "BatchDone")...)
 	return []*api{gb, gr}
 }
 
